@@ -531,7 +531,7 @@ func (label BuildLabel) isExperimental(state *BuildState) bool {
 // Matches returns whether the build label matches the other based on wildcard rules
 func (label BuildLabel) Matches(other BuildLabel) bool {
 	if label.Name == "..." {
-		return label.PackageName == "." || strings.HasPrefix(other.PackageName, label.PackageName)
+		return label.PackageName == "." || label.Includes(other)
 	}
 	if label.Name == "all" {
 		return label.PackageName == other.PackageName
